@@ -453,7 +453,7 @@ func (cl *Client) ReadFixedHeader(fh *packets.FixedHeader) error {
 		return err
 	}
 
-	if cl.ops.options.Capabilities.MaximumPacketSize > 0 && uint32(fh.Remaining+1) > cl.ops.options.Capabilities.MaximumPacketSize {
+	if cl.ops.options.Capabilities.MaximumPacketSize > 0 && uint32(fh.Remaining+1+bu) > cl.ops.options.Capabilities.MaximumPacketSize { // type byte + length bytes + remaining bytes
 		return packets.ErrPacketTooLarge // [MQTT-3.2.2-15]
 	}
 
